@@ -185,6 +185,7 @@ pub struct Opts {
     pub after_clear: bool,
     pub with_capacity: usize,
     pub tracked: bool,
+    pub clone_bisim: bool,
     pub keep: usize,
 }
 
@@ -340,6 +341,45 @@ fn compare_post<P: Payload + Clone>(
     got
 }
 
+/// C10 (and the "at most once" clause of C02): the double-ended consumption of children /
+/// preceding_siblings / following_siblings against the deque oracle of TLC, applied to the sequence
+/// the SAME real iterator yields when consumed forwards. This is a law of the iterators themselves,
+/// so it is also checked in real states that differ from the specification's.
+fn pulls_of_slot<P: Payload + Clone>(st: &mut Stats, ctx: &Ctx, b: &Bundle, prefix: &Option<Vec<Call>>, sim: &Sim<P>, slot: usize, limit: usize) {
+    let keep = ctx.opts.keep;
+    let got = sim.observe(slot, limit);
+    for (which, fwd) in [("kids", &got.kids), ("prec", &got.prec), ("foll", &got.foll)] {
+        if fwd.len() >= limit {
+            continue; // does not terminate: C02/C09 report that
+        }
+        st.check("C10", 1);
+        let r = sim.reversed(which, slot, limit);
+        let mut want: Vec<i64> = fwd.clone();
+        want.reverse();
+        st.pull_checks += 1;
+        if r != want {
+            st.violation(keep, Finding { prop: "C10".into(), kind: format!("rev:{}", which), detail: format!("{}.rev() from slot {} yields {:?}, forward iteration yields {:?}", which, slot, r, fwd), case: case_json(b, prefix, None, json!(want), json!(r)) });
+        }
+        if let Some(words) = ctx.detable.get(&fwd.len()) {
+            for (w, positions) in words {
+                st.pull_checks += 1;
+                st.check("C10", 1);
+                let got = sim.pulls(which, slot, w);
+                let want: Vec<i64> = positions.iter().map(|p| if *p == 0 { 0 } else { fwd[*p - 1] }).collect();
+                st.check("C02", 1);
+                let mut nz: Vec<i64> = got.iter().copied().filter(|x| *x != 0).collect();
+                nz.sort();
+                if nz.windows(2).any(|w| w[0] == w[1]) {
+                    st.violation(keep, Finding { prop: "C02".into(), kind: format!("yielded-twice:{}", which), detail: format!("{} from slot {} under pull word {} yields {:?}: a node is yielded more than once", which, slot, w, got), case: case_json(b, prefix, None, json!({"word": w, "want": want}), json!(got)) });
+                }
+                if got != want {
+                    st.violation(keep, Finding { prop: "C10".into(), kind: format!("pulls:{}", which), detail: format!("{} from slot {} under pull word {} yields {:?} expected {:?} (forward iteration yields {:?})", which, slot, w, got, want, fwd), case: case_json(b, prefix, None, json!({"word": w, "want": want}), json!(got)) });
+                }
+            }
+        }
+    }
+}
+
 fn compare_observers<P: Payload + Clone>(st: &mut Stats, ctx: &Ctx, b: &Bundle, prefix: &Option<Vec<Call>>, sim: &Sim<P>, prog: &Progress) {
     let keep = ctx.opts.keep;
     let n = b.st.count;
@@ -388,41 +428,20 @@ fn compare_observers<P: Payload + Clone>(st: &mut Stats, ctx: &Ctx, b: &Bundle, 
         cmpe!(prev_e, "prev_traverse(End)");
 
         if ctx.opts.pulls {
-            for (which, fwd) in [("kids", &exp.kids), ("prec", &exp.prec), ("foll", &exp.foll)] {
-                // rev() is the forward sequence reversed
-                st.check("C10", 1);
-                let r = sim.reversed(which, slot, limit);
-                let mut want: Vec<i64> = fwd.clone();
-                want.reverse();
-                st.pull_checks += 1;
-                if r != want {
-                    st.violation(keep, Finding { prop: "C10".into(), kind: format!("rev:{}", which), detail: format!("{}.rev() from slot {} yields {:?}, forward sequence is {:?}", which, slot, r, fwd), case: case_json(b, prefix, None, json!(want), json!(r)) });
-                }
-                if let Some(words) = ctx.detable.get(&fwd.len()) {
-                    for (w, positions) in words {
-                        st.pull_checks += 1;
-                        st.check("C10", 1);
-                        let got = sim.pulls(which, slot, w);
-                        let want: Vec<i64> = positions.iter().map(|p| if *p == 0 { 0 } else { fwd[*p - 1] }).collect();
-                        // C02: whatever the order, no node may be yielded twice
-                        st.check("C02", 1);
-                        let mut nz: Vec<i64> = got.iter().copied().filter(|x| *x != 0).collect();
-                        nz.sort();
-                        if nz.windows(2).any(|w| w[0] == w[1]) {
-                            st.violation(keep, Finding { prop: "C02".into(), kind: format!("yielded-twice:{}", which), detail: format!("{} from slot {} under pull word {} yields {:?}: a node is yielded more than once", which, slot, w, got), case: case_json(b, prefix, None, json!({"word": w, "want": want}), json!(got)) });
-                        }
-                        if got != want {
-                            st.violation(keep, Finding { prop: "C10".into(), kind: format!("pulls:{}", which), detail: format!("{} from slot {} under pull word {} yields {:?} expected {:?} (forward sequence {:?})", which, slot, w, got, want, fwd), case: case_json(b, prefix, None, json!({"word": w, "want": want}), json!(got)) });
-                        }
-                    }
-                }
-            }
+            pulls_of_slot(st, ctx, b, prefix, sim, slot, limit);
         }
     }
     if ctx.opts.lookups {
         st.lookup_checks += 1;
         st.check("C11", 1);
-        let lk = sim.lookups();
+        let lk = match std::panic::catch_unwind(std::panic::AssertUnwindSafe(|| sim.lookups())) {
+            Ok(l) => l,
+            Err(p) => {
+                let msg = if let Some(s) = p.downcast_ref::<&str>() { s.to_string() } else if let Some(s) = p.downcast_ref::<String>() { s.clone() } else { "?".into() };
+                st.violation(keep, Finding { prop: "C11".into(), kind: "lookup-panicked".into(), detail: format!("a lookup (get / Index / get_node_id / get_node_id_at / conversions) panicked: {}", msg), case: case_json(b, prefix, None, json!(b.st), json!(msg)) });
+                return;
+            }
+        };
         let mut bad = Vec::new();
         if lk.count != b.st.count || lk.iter_count != b.st.count || lk.slice_len != b.st.count {
             bad.push(format!("count()/iter().count()/as_slice().len() = {}/{}/{} expected {}", lk.count, lk.iter_count, lk.slice_len, b.st.count));
@@ -439,18 +458,48 @@ fn compare_observers<P: Payload + Clone>(st: &mut Stats, ctx: &Ctx, b: &Bundle, 
         if !lk.get_beyond_none {
             bad.push("get(id beyond count) is not None".into());
         }
-        // node references from other arenas
-        let other = sim.arena.clone();
-        for node in other.iter() {
-            if sim.arena.get_node_id(node).is_some() {
-                bad.push("get_node_id(node of a clone) is not None".into());
-                break;
+        // node references from other arenas (both directions: one of the two buffers lies lower in memory)
+        let foreign = std::panic::catch_unwind(std::panic::AssertUnwindSafe(|| {
+            let mut bad: Vec<String> = Vec::new();
+            let other = sim.arena.clone();
+            for node in other.iter() {
+                if sim.arena.get_node_id(node).is_some() {
+                    bad.push("get_node_id(node of a clone) is not None".into());
+                    break;
+                }
             }
-        }
-        let mut unrelated: indextree::Arena<P> = indextree::Arena::new();
-        let u = unrelated.new_node(P::make(0));
-        if sim.arena.get_node_id(&unrelated[u]).is_some() {
-            bad.push("get_node_id(node of an unrelated arena) is not None".into());
+            for node in sim.arena.iter() {
+                if other.get_node_id(node).is_some() {
+                    bad.push("clone.get_node_id(node of the original) is not None".into());
+                    break;
+                }
+            }
+            let mut unrelated: indextree::Arena<P> = indextree::Arena::with_capacity(3);
+            let u = unrelated.new_node(P::make(0));
+            if sim.arena.get_node_id(&unrelated[u]).is_some() {
+                bad.push("get_node_id(node of an unrelated arena) is not None".into());
+            }
+            for node in sim.arena.iter() {
+                if unrelated.get_node_id(node).is_some() {
+                    bad.push("unrelated.get_node_id(node of this arena) is not None".into());
+                    break;
+                }
+            }
+            // a node that lives outside any arena
+            let loose: indextree::Arena<P> = indextree::Arena::new();
+            if let Some(n) = sim.arena.iter().next() {
+                if loose.get_node_id(n).is_some() {
+                    bad.push("empty_arena.get_node_id(node) is not None".into());
+                }
+            }
+            bad
+        }));
+        match foreign {
+            Ok(v) => bad.extend(v),
+            Err(p) => {
+                let msg = if let Some(s) = p.downcast_ref::<&str>() { s.to_string() } else if let Some(s) = p.downcast_ref::<String>() { s.clone() } else { "?".into() };
+                bad.push(format!("get_node_id with a node of another arena panicked: {}", msg));
+            }
         }
         for d in bad {
             st.violation(keep, Finding { prop: "C11".into(), kind: "lookup".into(), detail: d, case: case_json(b, prefix, None, json!(b.st), json!(lk)) });
@@ -506,6 +555,15 @@ fn run_bundle<P: Payload + Clone>(ctx: &Ctx, b: &Bundle, prefix: &Option<Vec<Cal
         st.path_failures += 1;
         let p = b.path.last().map(|c| prop_of_op(&c.op)).unwrap_or("C13");
         st.violation(keep, Finding { prop: p.into(), kind: "path-state".into(), detail: "state after the call path differs from the specification's".into(), case: case_json(b, prefix, None, json!(b.st), json!(base)) });
+        // laws of the real iterators themselves still apply in this state
+        if ctx.opts.pulls {
+            for slot in 1..=base.count {
+                if base.live[slot - 1] {
+                    pulls_of_slot(st, ctx, b, prefix, &sim, slot, base.count + 1);
+                }
+            }
+        }
+        note_state(st, &base, b, None);
         return;
     }
     note_state(st, &base, b, None);
@@ -637,6 +695,19 @@ fn run_bundle<P: Payload + Clone>(ctx: &Ctx, b: &Bundle, prefix: &Option<Vec<Cal
                 if ctx.opts.roundtrip {
                     crate::roundtrip::check_call(st, keep, b, prefix, &c, &sim, &f, &d);
                 }
+                // C13: a clone and its original evolve alike - the same call on a second ORIGINAL
+                // (rebuilt from the path, never cloned) gives the same result and an equal arena
+                if ctx.opts.clone_bisim && prefix.is_none() && (oi as u64 + ctx.bundle_idx) % 3 == 0 {
+                    st.check("C13", 1);
+                    let mut orig: Sim<P> = if ctx.opts.with_capacity > 0 { Sim::with_capacity(ctx.opts.with_capacity) } else { Sim::new() };
+                    for pc in &b.path {
+                        orig.apply(pc);
+                    }
+                    let d2 = orig.apply(&c);
+                    if d2.class != d.class || d2.new != d.new || orig.arena != f.arena || orig.ids != f.ids || orig.drain() != f.drain() {
+                        st.violation(keep, Finding { prop: "C13".into(), kind: "clone-diverges".into(), detail: format!("{}(a={}, b={}) gives {} / slot {} on the original and {} / slot {} on its clone, or different arenas / reusable slots", c.op, c.a, c.b, d2.class, d2.new, d.class, d.new), case: case_json(b, prefix, Some(&c), json!(orig.proj()), json!(f.proj())) });
+                    }
+                }
             }
         }
     }
@@ -646,7 +717,12 @@ fn run_bundle<P: Payload + Clone>(ctx: &Ctx, b: &Bundle, prefix: &Option<Vec<Cal
     }
     // C13: determinism - the same path on a second new arena gives an equal arena and the same ids
     if prefix.is_none() {
-        st.check("C13", 1);
+        st.check("C13", 2);
+        // a clone compares equal to its original, and has the same reusable slots
+        let cl = sim.fork();
+        if cl.arena != sim.arena || cl.drain() != sim.drain() || cl.proj() != sim.proj() {
+            st.violation(keep, Finding { prop: "C13".into(), kind: "clone-not-equal".into(), detail: "arena.clone() != arena (or it reports different links / payloads / reusable slots)".into(), case: case_json(b, prefix, None, json!(sim.proj()), json!(cl.proj())) });
+        }
         let mut s2: Sim<P> = if ctx.opts.with_capacity > 0 { Sim::with_capacity(ctx.opts.with_capacity) } else { Sim::new() };
         for c in &b.path {
             s2.apply(c);
@@ -693,7 +769,12 @@ fn process<P: Payload + Clone>(ctx: &Ctx, line: &str, prev_path: &Option<Vec<Cal
         }
         for f in cleared.findings {
             if !fresh_sigs.contains(&signature(&f)) {
-                st.violation(ctx.opts.keep, Finding { prop: "C13".into(), kind: format!("after-clear:{}", f.kind), detail: format!("only after clear(): {}", f.detail), case: f.case });
+                st.violation(ctx.opts.keep, Finding { prop: "C13".into(), kind: format!("after-clear:{}", f.kind), detail: format!("only after clear(): {}", f.detail), case: f.case.clone() });
+                // the history "..., clear(), ..." is a history like any other: the property the
+                // mismatch belongs to is violated as well
+                if f.prop != "C13" {
+                    st.violation(ctx.opts.keep, Finding { prop: f.prop.clone(), kind: format!("after-clear:{}", f.kind), detail: format!("in a history containing clear(): {}", f.detail), case: f.case });
+                }
             }
         }
         st.max_slots_seen = st.max_slots_seen.max(cleared.max_slots_seen);
